@@ -285,14 +285,14 @@ NOT_APPLICABLE = {
 
 # clauses added in rounds 3 and 4 (DESIGN.md 10.10 / 10.11); appended to the texts above
 EXTRA_TEXT = {
-    "C18": " Also: the bit layout of every assembled octet equals RFC 4648's (C18.bits); process_tail is called once, after the loops (C18.split); an error returned by Decoder::push is recorded (C18.sticky); users of the Symbols iterator ask ok() (C18.symok). Also (round 12): encoder symbol bit layout equals RFC 4648 for every expression handed to the alphabet helper (C18.encbits); error values reaching any returned local of Decoder::push and its inlined helpers are recorded (C18.sticky).",
-    "C19": " Also: the remainder handed back by the compressor's lookup is cut at a label boundary (C19.bound); hand-written parse functions refuse trailing octets (C19.whole); RevName writes its remainder label by label (C19.rev); a type compresses names only if its parser decompresses them (C19.cmpr); SizePrefixed siblings agree (C19.prefix); section counts rise only after a successful build (C19.rollback). Also (round 10): Name::cmp of the new codec decides by length only behind a label-structure fact (C19.lsuffix). Also (round 12): the record-data dispatcher decompresses what the builders compress (C19.dispatch); HeaderFlags setters clear exactly their field's RFC 1035 bits (C19.flags). Also (round 13): UnparsedName compares pointer and position in one frame (C19.hdr12).",
-    "C20": " Also: failures are bounded by max_validity; nothing is served at the instant of expiry and every Some(..) is on the fresh side (C20.exp); DS in the authority section is stripped for DO=0 (C20.strip); flag arguments of Key::new match their parameters (C20.key); Answer only for the queried type and class (C20.cls); no unwrap on the next item of a section (C20.total). Also (round 12): setters store into, getters read, the field of their name (C20.cfg); a derived entry is not valid for longer than its source (C20.age); a stored Ok response that cannot be rebuilt yields None, not an error (C20.replay).",
+    "C18": " Also: the bit layout of every assembled octet equals RFC 4648's (C18.bits); process_tail is called once, after the loops (C18.split); an error returned by Decoder::push is recorded (C18.sticky); users of the Symbols iterator ask ok() (C18.symok). Also (round 12): encoder symbol bit layout equals RFC 4648 for every expression handed to the alphabet helper (C18.encbits); error values reaching any returned local of Decoder::push and its inlined helpers are recorded (C18.sticky). Also (round 15): every read of a 128-entry decode table is behind an index bound < 128 (C18.tabidx); the EndOfToken arm of a symbol converter changes no converter state (C18.eot).",
+    "C19": " Also: the remainder handed back by the compressor's lookup is cut at a label boundary (C19.bound); hand-written parse functions refuse trailing octets (C19.whole); RevName writes its remainder label by label (C19.rev); a type compresses names only if its parser decompresses them (C19.cmpr); SizePrefixed siblings agree (C19.prefix); section counts rise only after a successful build (C19.rollback). Also (round 10): Name::cmp of the new codec decides by length only behind a label-structure fact (C19.lsuffix). Also (round 12): the record-data dispatcher decompresses what the builders compress (C19.dispatch); HeaderFlags setters clear exactly their field's RFC 1035 bits (C19.flags). Also (round 13): UnparsedName compares pointer and position in one frame (C19.hdr12). Also (round 15): the new codec's record ends exactly at position-behind-RDLENGTH + RDLENGTH (C19.rdend); SizePrefixed builders refuse only when the size field itself does not fit (C19.room).",
+    "C20": " Also: failures are bounded by max_validity; nothing is served at the instant of expiry and every Some(..) is on the fresh side (C20.exp); DS in the authority section is stripped for DO=0 (C20.strip); flag arguments of Key::new match their parameters (C20.key); Answer only for the queried type and class (C20.cls); no unwrap on the next item of a section (C20.total). Also (round 12): setters store into, getters read, the field of their name (C20.cfg); a derived entry is not valid for longer than its source (C20.age); a stored Ok response that cannot be rebuilt yields None, not an error (C20.replay). Also (round 15): a derived copy is stored under the requested key, never the altered one (C20.ownkey); a key is built only behind opcode == QUERY and class == IN (C20.gate); every validity is returned behind the TTL scan of all three sections (C20.cap).",
     "C12": " Also: DS digest input is canonical owner + canonical RDATA (C12.digest); RSA key length window is 1..=512 octets (C12.rsa); key tag reads all four fields and every key octet (C12.tag); canonical order == canonical form per field (C04.canon); every RFC 4034 6.2 type has a typed variant (C12.types, four known findings: AFSDB, RT, PX, KX). Also (round 11): SortedRecords adds a record only at a canonical binary-search index or sorts canonically before returning (C12.sorted); conversions keep every field (C05.conv). Also (round 14): signer's padding / DS digest context match the algorithm number (C12.algtab); length-first canonical order (C04.lenfirst).",
     "C14": " Also: the memoised signature verdict does not read the clock, the validity period is tested in front of the cache (C14.cache); no panicking Duration/Instant arithmetic (C14.panic); the signer handed to create_child_node is never an intermediate node (C14.signer); the signer name decides the zone only if the owner ends with it (C14.target); both callers of the wildcard non-existence check exclude name == *.<ce> (C14.wild); every answer-section RRset's state enters the verdict (C14.every); 'no SOA' is bogus only after the chain of trust was consulted (C14.nosoa); nsec3_in_range strict (C14.range); every chain link's state folded (C14.chain). Also (rounds 10-11): a denial record is used only if its signer equals the expected signer (C14.nsigner); a positive wildcard verdict rests on the wildcard's closest encloser (C14.wildce); validity returned with a verified signature is capped by ttl_for_sig of that signature (C14.sigttl); split_at(n) behind n <= len of the same slice (C14.split); DS algorithm and digest type judged on the same record (C14.dsusable); no secure NSEC3 verdict after an opt-out closest-encloser proof (path-sensitive, C14.optout); no expect on LongRecordData / on an OPT record rebuilt with upstream options (C14.panic). Also (round 12): supported_algorithm equals what every crypto backend verifies (C14.algs); QTYPE ANY finds its answer (C14.qany). Also (round 14): failed-signature limits agree (C14.badsigs); every DNAME / CNAME step is counted (C14.loopcount); the wildcard is read from the verified RRSIG (C14.wildsig).",
     "C15": " Also: free-slot search sees the slot vacant (C15.slot); datagram receive loop waits against a per-attempt deadline (C15.dgdl); settable / applied timeout fields agree (C15.cfg); synthesized replies set QR (C15.synth); the stream timer restarts only for a matched message (C15.timer); check_stream compares the question (or sees it empty) in every state (typestate, C15.xfr); accepting a request never raises the timeout pending requests run under (C15.raise). Also (round 11): a new request does not restart a running response timer (C15.timer); synthesized replies carry the request's ID (C15.synth); the datagram transmission loop runs exactly max_retries + 1 times (linear form of the range, C15.budget). Also (round 13): the first message of a transfer has a question or is an error (path-sensitive, C15.xfr). Also (round 14): the datagram buffer is resized before every recv (C15.dgdl); replies already read are delivered before the reader's end is reported (C15.ans).",
     "C17": " Also: the XFR interpreter's serial regression test is RFC 1982 '<' (C17.ixfr); Timestamp::scan reduces modulo 2^32 (C17.wrap). Also (round 11): no saturating / checked / plain addition on the raw value of a serial, new codec included (C17.use); the new codec's copy of to_system_time has the decision table of the established one (C17.port). Also (round 14): the new codec's Serial::inc wraps (C17.add).",
-    "C01": " Also: unreachable!() behind a repeated match is unreachable (path-sensitive, C01.rematch); lossy-UTF-8 loops end on error_len() == None (C01.lossy); Clone impls of the message iterators copy every field (C01.clone). Shared with other checks: ParsedName's compressed flag (C03.flag) and the alphabet-index bound of the base16/32/64 encoders used by Display (C18.enc). Also (round 10): bitmap window lengths accepted are exactly 3..=34 (C01.window); caps computed in an inlined helper are recognised (accumulator_of). Also (round 12): MessageIter ends after a failed section change (C01.fuse); compression pointers are built with exactly 14 possible bits (C01.ptrmask); len() - k behind len >= k (C01.lensub).",
+    "C01": " Also: unreachable!() behind a repeated match is unreachable (path-sensitive, C01.rematch); lossy-UTF-8 loops end on error_len() == None (C01.lossy); Clone impls of the message iterators copy every field (C01.clone). Shared with other checks: ParsedName's compressed flag (C03.flag) and the alphabet-index bound of the base16/32/64 encoders used by Display (C18.enc). Also (round 10): bitmap window lengths accepted are exactly 3..=34 (C01.window); caps computed in an inlined helper are recognised (accumulator_of). Also (round 12): MessageIter ends after a failed section change (C01.fuse); compression pointers are built with exactly 14 possible bits (C01.ptrmask); len() - k behind len >= k (C01.lensub). Also (round 15): a loop that discards a section step leaves on count = Err (C01.handloop); DigPrinter reaches no further section step after an unparsable item (C01.printer); SVCB list parameters are a multiple of their iterator's item size (C01.hintelem).",
     "C02": " Also: label sequences are compared with a length-aware equality (C02.seqeq); the parser's compressed flag (C03.flag). Also: each backward section conversion reaches rewind() of every later section and each rewind zeroes its own count (C02.rewind); header fields written in place by a builder inside a push closure are restored when the push fails (C02.hdr); skip and parse accept the same names (C01.skip). Thorough tier additionally builds compile-fail witnesses for the section typestates. Also (round 13): the section trait's push is the builder's own (C02.secfwd); the OPT option iterator continues while any octet remains (C02.optiter).",
     "C03": " Also: no subtraction in the builder can wrap, a started label has content, labels are appended atomically (C03.bld); in-place truncation only at label boundaries (C03.cut); both escape readers accept exactly the printable non-digits (C06.sym). Also: validated name types are built directly (struct literal) only inside an unsafe fn, from a validated value or behind a validator, and every *_unchecked constructor is an unsafe fn (C03.raw); the zone-file reader never continues past an empty label (C06.empty). Thorough tier additionally builds compile-fail witnesses (unsafe constructors, no mutable access to a name's octets). Also (round 10): the validator relied on before an unchecked wrap bounds the length (C03.forge). Also (round 13): one append per new label (C03.bld); finish / into_name / append_origin end the open label (C03.endl); a root label anywhere in a relative name is refused (C03.bounds).",
     "C07": " Also: no overlong UTF-8 (C07.utf8); token-ending characters == categoriser's special octets (C07.wordset); `@` in record data (C07.at); a line feed inside a group is white space; every stated class is remembered (C07.inherit); converter finished once (C18.split) and guarded after end-of-data (C18.state). Also: every token consumer checks require_token (C07.token); next_item is only reached with the token read to its end (typestate, C07.drain); the cursor never moves past a symbol found not to be a word character (C07.delim); running length check in scan_name rejects from 255 (C07.len); the closing quote is not part of a value (C07.quote); no unchecked narrow arithmetic in scan functions (C07.ovf); the fast path passes only octets the slow path accepts (C07.fast). Also (round 13): the item reader advances one octet at a time (C07.step); convert_label's no-copy guard is an equality (C07.nocopy).",
